@@ -73,6 +73,7 @@ type Frame struct {
 	kind      int // 0 = ordinary call, 1 = deferred call run by rundefers, 2 = deferred call run by unwinding
 	loopSeen  map[*ssa.BasicBlock]bool
 	locals    map[string]localRef // source-level names (from DebugRef)
+	onRet     func(s *State)      // fkDeferLoop: runs when the frame returns; the path ends there
 }
 
 type localRef struct {
@@ -84,6 +85,7 @@ const (
 	fkCall = iota
 	fkDefer
 	fkUnwind
+	fkDeferLoop // generic iteration of the deferred calls registered by a loop
 )
 
 func (f *Frame) clone() *Frame {
